@@ -166,8 +166,19 @@ def fresh(ctx: Ctx, rule="R-C20-FRESH") -> None:
     if hr:
         a = hr[0].ast.args
         ok = len(a) == 2 and all(isinstance(x, ast.Name) for x in a)
-        srcs = [n for n in ast.walk(d.node) if isinstance(n, ast.Assign) and isinstance(n.targets[0], ast.Tuple) and len(n.targets[0].elts) == 3]
-        ok = ok and len(srcs) == 1 and [dotted(e) for e in srcs[0].targets[0].elts][:2] == [a[0].id, a[1].id] and "split(' '" in unparse(srcs[0].value)
+        srcs = [(o, n) for o, n in C.flat_walk(ctx, d) if isinstance(n, ast.Assign) and isinstance(n.targets[0], ast.Tuple) and len(n.targets[0].elts) == 3 and "split(' '" in unparse(n.value)]
+        ok = ok and len(srcs) == 1
+        if ok:
+            o, n = srcs[0]
+            first_two = [dotted(e) for e in n.targets[0].elts][:2]
+            if o is d:
+                ok = first_two == [a[0].id, a[1].id]
+            else:
+                # parsed in a helper that returns (method, path), unpacked in that order by the caller
+                rets = [r for r in ast.walk(o.node) if isinstance(r, ast.Return) and isinstance(r.value, ast.Tuple)]
+                unp = [x for x in ast.walk(d.node) if isinstance(x, ast.Assign) and isinstance(x.targets[0], ast.Tuple) and isinstance(x.value, ast.Call)
+                       and any(cal is o for cal in ctx.res.callees(d, x.value))]
+                ok = len(rets) == 1 and [dotted(e) for e in rets[0].value.elts] == first_two and len(unp) == 1 and [dotted(e) for e in unp[0].targets[0].elts] == [a[0].id, a[1].id]
         ctx.check(ok, rule, d, "method and path are the first two tokens of the request line", "method, path, _ = request_line.split(' ', 2)",
                   "data_received does not pass the request line's method and path to handle_request", instance="request line tokens")
 
